@@ -85,6 +85,10 @@ func (w *World) checkProofsOn(src proofSource, versioned func([]byte) (*ics23.Co
 		if !bytes.Equal(p.GetExist().Key, k) || !bytes.Equal(p.GetExist().Value, val) {
 			return w.viol(obs("membership.content"), "version %d membership proof of %q carries key %q value %q want value %q", v, k, p.GetExist().Key, p.GetExist().Value, val)
 		}
+		if len(k) == 0 {
+			w.Cnt["proof_empty_key_skipped"]++
+			continue // ics23's LeafOp.Apply rejects empty keys ("leaf op needs key") as well
+		}
 		if len(val) == 0 {
 			// ics23's LeafOp.Apply rejects empty values ("leaf op needs value"): not verifiable by
 			// construction of the trusted verifier, whatever the tree does.
@@ -165,10 +169,10 @@ func (w *World) checkProofsOn(src proofSource, versioned func([]byte) (*ics23.Co
 		if !bytes.Equal(gotL, wantL) || !bytes.Equal(gotR, wantR) || (wantL == nil) != (ne.Left == nil) || (wantR == nil) != (ne.Right == nil) {
 			return w.viol(obs("nonmembership.neighbours"), "version %d non-membership proof of %q is bracketed by (%q,%q) want (%q,%q)", v, k, gotL, gotR, wantL, wantR)
 		}
-		verifiable := true
+		verifiable := len(k) > 0
 		for _, nb := range [][]byte{wantL, wantR} {
-			if nb != nil && len(kv[string(nb)]) == 0 {
-				verifiable = false // neighbour with empty value: see above
+			if nb != nil && (len(kv[string(nb)]) == 0 || len(nb) == 0) {
+				verifiable = false // neighbour with empty value or empty key: see above
 			}
 		}
 		if !verifiable {
